@@ -345,6 +345,7 @@ func ReadWeatherCSV(VWDAT string, startyear int, g *GlobalVarsMain, s *WeatherDa
 	T := 0
 	yrz := 0
 	first := true
+	var lastDate time.Time // the days of the series have to follow each other, also across a change of year
 	for scanner.Scan() {
 		line := scanner.Text()
 		T++
@@ -412,13 +413,17 @@ func ReadWeatherCSV(VWDAT string, startyear int, g *GlobalVarsMain, s *WeatherDa
 			first = false
 			T = d.datetime.YearDay()
 			yrz = 1
+			if d.datetime.Year() == startyear && T > g.ITAG {
+				return fmt.Errorf("%s Failed to parse file: %s, error: missing days before the simulation start", g.LOGID, VWDAT)
+			}
 		} else if d.datetime.Day() == 1 && d.datetime.Month() == time.January {
 			T = 1
 			yrz = yrz + 1
 		}
-		if d.datetime.YearDay() != T {
+		if d.datetime.YearDay() != T || (!lastDate.IsZero() && !d.datetime.Equal(lastDate.AddDate(0, 0, 1))) {
 			return fmt.Errorf("%s Failed to parse file: %s, error: missing days", g.LOGID, VWDAT)
 		}
+		lastDate = d.datetime
 		if yrz > len(s.JAR) {
 			yrz--
 			break
@@ -482,6 +487,7 @@ func ReadWeatherCZ(VWDAT string, startyear int, g *GlobalVarsMain, s *WeatherDat
 	T := 0
 	yrz := 0
 	first := true
+	var lastDate time.Time // the days of the series have to follow each other, also across a change of year
 	currentCO2 := s.CO2KONZ[0] // baseCO2 for first year
 	for scanner.Scan() {
 		line := scanner.Text()
@@ -550,13 +556,17 @@ func ReadWeatherCZ(VWDAT string, startyear int, g *GlobalVarsMain, s *WeatherDat
 			first = false
 			T = d.datetime.YearDay()
 			yrz = 1
+			if d.datetime.Year() == startyear && T > g.ITAG {
+				return fmt.Errorf("%s Failed to parse file: %s, error: missing days before the simulation start", g.LOGID, VWDAT)
+			}
 		} else if d.datetime.Day() == 1 && d.datetime.Month() == time.January {
 			T = 1
 			yrz = yrz + 1
 		}
-		if d.datetime.YearDay() != T {
+		if d.datetime.YearDay() != T || (!lastDate.IsZero() && !d.datetime.Equal(lastDate.AddDate(0, 0, 1))) {
 			return fmt.Errorf("%s Failed to parse file: %s, error: missing days", g.LOGID, VWDAT)
 		}
+		lastDate = d.datetime
 		if yrz > len(s.JAR) {
 			yrz--
 			break
